@@ -337,6 +337,35 @@ theorem quiesces_without_further_input (cfg : Cfg) (hmax : 1 ≤ cfg.maxAttempts
   obtain ⟨es, s', h1, h2, h3, -, h5⟩ := drains cfg hmax s hr (fresh_none_outside_batchMessages cfg s hr hlock)
   exact ⟨es, s', h1, h2, h3, h5⟩
 
+/-- **everything_completed_when_close_returns** — Close can return only when every batch the writer ever created is
+completed: all senders have exited, an exited sender's queue is empty and closed, a closed queue's writer has nothing
+attached or pending, and a batch that is not completed would have to be in one of these places (`no_batch_dropped`).
+So nothing accepted is left unsent behind a returned Close. -/
+theorem everything_completed_when_close_returns (cfg : Cfg) (hmax : 1 ≤ cfg.maxAttempts) (s s' : State) (hr : Reachable cfg s)
+    (hs : step cfg s .closeReturn = some s') :
+    ∀ b B, s.batches b = some B → ∃ code, B.done = some code := by
+  simp only [step] at hs
+  repeat' split at hs
+  all_goals (first | (cases hs; done) | skip)
+  rename_i hg
+  obtain ⟨-, -, -, hall⟩ := hg
+  intro b B hB
+  cases hd : B.done with
+  | some code => exact ⟨code, rfl⟩
+  | none =>
+    exfalso
+    obtain ⟨P, hP, hmem⟩ := invLive cfg s hr b B hB hd
+    have hlisted := (invSched cfg s hr).pwListed B.pw P hP
+    rw [List.all_eq_true] at hall
+    have hex := hall B.pw hlisted
+    rw [hP] at hex
+    have hexited : P.sender = .exited := by simpa using hex
+    obtain ⟨hq, hqc⟩ := ((invProg cfg hmax s hr).pw B.pw P hP).exitedEmpty hexited
+    obtain ⟨-, hcurr, hpend⟩ := (invClosedQ cfg s hr).closedQ B.pw P hP hqc
+    have : P.pipe = [] := by simp [PW.pipe, hexited, Sender.batch?, hq, hcurr, hpend]
+    rw [this] at hmem
+    cases hmem
+
 /-! ### the decision logic of the model is the one in the source (regenerated on every run by go/extract/writer) -/
 
 /-- every piece of decision logic the theorems below are stated over could be read from the source -/
@@ -394,5 +423,15 @@ example : (run exCfg State.init
 
 example : (run exCfg State.init
     [ .enter true, .begin_ 1 [{ size := 50, topic := "" }, { size := 101, topic := "" }], .reject 1 .toolarge 1 ]).isSome = true := by decide
+
+/-- a cancelled synchronous call: WriteMessages returns ctx.Err() while its only batch is still attached; timer, queue
+and sender then produce the message all the same (non-vacuity of `cancelled_call_still_flushed`) -/
+example : ((run { exCfg with async := false } State.init
+    [ .enter true, .begin_ 1 [{ size := 50, topic := "" }], .assign 1 0 ("t", 0), .batch 1, .newPW 1 1 ("t", 0),
+      .newBatch 1 1, .add 1 1 1 0 50, .batched 1, .ret 1 .ctx,
+      .timerFire 1 1 true, .detach 1 1 .timer 0, .qput 1 1 true, .qget 1 (some 1), .attempt 1 1 0,
+      .produce 1 ("t", 0) [(1, 0)] .acked, .attemptDone 1 1 0 0, .complete 1 1 0 ]).map
+        (fun s => ((s.log ("t", 0)).map (·.msg), (s.calls 1).map (·.result)))) =
+    some ([(1, 0)], some (some .ctx)) := by decide
 
 end KV.C08
